@@ -63,7 +63,11 @@ pub fn read_session(bytes: &[u8], ids: &[(u32, u32)], p: &Plan) -> (Vec<Value>, 
         Ok(Ok(r)) => {
             let mut t: Vec<u32> = r.tracks().keys().copied().collect();
             t.sort();
-            log.call("open", "ok", json!(t));
+            // the parsed structures, in a canonical rendering (maps sorted): what open() built must
+            // not depend on how the stream delivered the bytes
+            let canon = serde_json::to_string(&json!([crate::dbg::parse(&format!("{:?}", r.ftyp)), crate::dbg::parse(&format!("{:?}", r.moov)),
+                crate::dbg::parse(&format!("{:?}", r.emsgs))])).unwrap_or_default();
+            log.call("open", "ok", json!({"tracks": t, "structures": dg(canon.as_bytes())}));
             r
         }
         Ok(Err(e)) => {
